@@ -179,9 +179,9 @@ Definition eps9 : Q := 1 # 1000000000.
 
 (* decidable spec for auto layout outputs, under the oracle sanity hypotheses (checked here too: when they do not
    hold the spec bit is not raised; bit 2 = 4 reports that the oracle hypotheses do not hold) *)
-Definition oracle_ok_b (tmin tmax ths : Q) (cols : list acol) : bool :=
-  forallb (fun c => Qle_bool 0 (a_min c) && Qle_bool (a_min c) (a_max c)) cols &&
-  Qle_bool (ths + gsum a_min cols) tmin && Qle_bool tmin tmax.
+Definition oracle_ok_b (tol tmin tmax ths : Q) (cols : list acol) : bool :=
+  forallb (fun c => leq tol 0 (a_min c) && leq tol (a_min c) (a_max c)) cols &&
+  leq tol (ths + gsum a_min cols) tmin && leq tol tmin tmax.
 Definition auto_spec_b (tol : Q) (tw : option Q) (avail tmin tmax ths : Q) (cols : list acol) (out : Q * list Q) : bool :=
   let '(W, ws) := out in
   let A := W - ths in
@@ -194,7 +194,7 @@ Definition auto_spec_b (tol : Q) (tw : option Q) (avail tmin tmax ths : Q) (cols
 
 Definition auto_judge_tol (tol : Q) (c : option Q * (Q * Q * Q * Q) * list acol * option (Q * list Q)) : nat :=
   let '(tw, (avail, tmin, tmax, ths), cols, out) := c in
-  let ok := oracle_ok_b (tmin + tol) tmax ths cols in
+  let ok := oracle_ok_b tol tmin tmax ths cols in
   ((if out_close tol (auto_layout eps9 tw avail tmin tmax ths cols) out then 0 else 1) +
    (match out with
     | Some o => if negb ok || auto_spec_b tol tw avail tmin tmax ths cols o then 0 else 2
